@@ -33,6 +33,38 @@ def f(x, flag):
     assert (a + b) * (a - b) == a * a - b * b
     assert (a / b) * b == a
     assert Poly.atom(("exp", a.key())) * Poly.atom(("exp", b.key())) == Poly.atom(("exp", (a + b).key()))
+    # positive examples for the general rules whose expected count on the real tree is zero:
+    # they must match here on every run (a rule that can no longer match anything passes vacuously)
+    import os
+    import shutil
+    import tempfile
+
+    from glint import lib
+    from glint.index import Repo
+
+    tmp = tempfile.mkdtemp(prefix="glint-fixture-")
+    try:
+        pkg = os.path.join(tmp, "glotaran")
+        os.makedirs(pkg)
+        open(os.path.join(pkg, "__init__.py"), "w").write("")
+        open(os.path.join(pkg, "sample.py"), "w").write(
+            "import numpy as np\n\n\n"
+            "def escapes(xs):\n    out = []\n    for x in xs:\n        width = x * 2\n        out.append(x)\n    return out, width\n\n\n"
+            "def stays(xs):\n    acc = 0\n    for x in xs:\n        acc += x\n    return acc\n\n\n"
+            "def split(alpha, beta):\n    return np.exp(alpha * alpha) * np.exp(-2 * alpha * beta)\n\n\n"
+            "def whole(alpha, beta):\n    return np.exp(alpha * (alpha - 2 * beta))\n\n\n"
+            "def spelled(x, t):\n    if not x:\n        y = 1\n    else:\n        y = 2\n    _t = abs(y)\n    z = max(_t, t)\n    return 0 < z\n"
+        )
+        repo = Repo(tmp)
+        q = {fi.name: fi for fi in repo.functions.values()}
+        assert [v for _, v, _ in lib.loop_escapes(q["escapes"], repo)] == ["width"], "loop-escape rule lost its positive example"
+        assert lib.loop_escapes(q["stays"], repo) == [], "loop-escape rule fires on an accumulator"
+        assert len(lib.overflowing_exponentials(q["split"], repo)[1]) == 1, "positive-definite-exponent rule lost its positive example"
+        assert lib.overflowing_exponentials(q["whole"], repo)[1] == [], "positive-definite-exponent rule fires on the complete exponent"
+        txt = lib.xfn(q["spelled"], repo)
+        assert "if x:" in txt and "max(abs(y), t) > 0" in txt, f"canonical forms / look-through changed: {txt}"
+    finally:
+        shutil.rmtree(tmp, ignore_errors=True)
     print("glint fixtures: ok")
     return 0
 
